@@ -236,7 +236,7 @@ def run(ck):
         crash_inputs = []
         for _ in range(ck.pick(6, 80)):
             key = r_.choice(KEYS)
-            init = gen_world(r_, atom, key) if r_.random() < 0.85 else None
+            init = gen_world(r_, atom, key) if r_.random() < 0.85 else []  # the world file always exists (property: "existing world files")
             slot = r_.choice(["-", "0", "12", "1.2", "a_b", "3"])
             crash_inputs.append((init, dict(key=key, slot=slot, remove=False)))
 
